@@ -152,10 +152,17 @@ class MultiTerm(qcore.Query):
     def _btexts(self, ixreader):
         raise NotImplementedError(self.__class__.__name__)
 
+    def _existing_btexts(self, ixreader):
+        # A field the index does not have (or does not index) has no terms;
+        # like Term and Phrase, a query on it matches nothing
+        if not qcore.field_is_searchable(ixreader, self.field()):
+            return iter(())
+        return self._btexts(ixreader)
+
     def expanded_terms(self, ixreader, phrases=False):
         fieldname = self.field()
         if fieldname:
-            for btext in self._btexts(ixreader):
+            for btext in self._existing_btexts(ixreader):
                 yield (fieldname, btext)
 
     def tokens(self, boost=1.0, exreader=None):
@@ -163,7 +170,7 @@ class MultiTerm(qcore.Query):
         if exreader is None:
             btexts = [self.text]
         else:
-            btexts = self._btexts(exreader)
+            btexts = self._existing_btexts(exreader)
 
         for btext in btexts:
             yield Token(fieldname=fieldname, text=btext,
@@ -178,7 +185,7 @@ class MultiTerm(qcore.Query):
         field = ixreader.schema[fieldname]
 
         existing = []
-        for btext in sorted(set(self._btexts(ixreader))):
+        for btext in sorted(set(self._existing_btexts(ixreader))):
             text = field.from_bytes(btext)
             existing.append(Term(fieldname, text, boost=self.boost))
 
@@ -193,12 +200,13 @@ class MultiTerm(qcore.Query):
     def estimate_size(self, ixreader):
         fieldname = self.field()
         return sum(ixreader.doc_frequency(fieldname, btext)
-                   for btext in self._btexts(ixreader))
+                   for btext in self._existing_btexts(ixreader))
 
     def estimate_min_size(self, ixreader):
         fieldname = self.field()
-        return min(ixreader.doc_frequency(fieldname, text)
-                   for text in self._btexts(ixreader))
+        sizes = [ixreader.doc_frequency(fieldname, text)
+                 for text in self._existing_btexts(ixreader)]
+        return min(sizes) if sizes else 0
 
     def matcher(self, searcher, context=None):
         from whoosh.query import Or
@@ -207,8 +215,8 @@ class MultiTerm(qcore.Query):
         constantscore = self.constantscore
 
         reader = searcher.reader()
-        qs = [Term(fieldname, word) for word in self._btexts(reader)
-              if word]
+        qs = [Term(fieldname, word)
+              for word in self._existing_btexts(reader) if word]
         if not qs:
             return matching.NullMatcher()
 
